@@ -85,6 +85,7 @@ func checkC19(p *Program, r *Report) {
 			leap = f
 		}
 	}
+	checkCalendarRoles(p, r, dim, leap)
 	// ---- table constants from the declaration
 	want := []int64{31, 28, 31, 30, 31, 30, 31, 31, 30, 31, 30, 31}
 	pkg := p.ByPath[modPath+"/models/functions"]
@@ -143,7 +144,25 @@ func checkC19(p *Program, r *Report) {
 		r.OK("R19.1", key+" is never written")
 	}
 	// ---- month-length function returns
+	// the month parameter is the one the table is indexed with; the year parameter the one handed to the leap predicate
 	month := dim.Params[0]
+	var yearPrm *ssa.Parameter
+	eachInstr(dim, func(_ *ssa.BasicBlock, _ int, ins ssa.Instruction) {
+		if ia, ok := ins.(*ssa.IndexAddr); ok && ia.X == ssa.Value(table) {
+			for _, prm := range dim.Params {
+				if dependsOn(ia.Index, func(x ssa.Value) bool { return x == ssa.Value(prm) }, map[ssa.Value]bool{}) {
+					month = prm
+				}
+			}
+		}
+	})
+	for _, c := range callsIn(dim) {
+		if c.Common().StaticCallee() == leap && leap != nil && len(c.Common().Args) == 1 {
+			if prm, ok := origin1(c.Common().Args[0]).(*ssa.Parameter); ok {
+				yearPrm = prm
+			}
+		}
+	}
 	okDim := true
 	n29, nTab := 0, 0
 	for _, ret := range returnsOf(dim) {
@@ -167,7 +186,7 @@ func checkC19(p *Program, r *Report) {
 							g2 = true
 						}
 					}
-					if c, ok := g.Cond.(*ssa.Call); ok && g.Val && c.Common().StaticCallee() == leap && leap != nil && len(dim.Params) > 1 && c.Common().Args[0] == ssa.Value(dim.Params[1]) {
+					if c, ok := g.Cond.(*ssa.Call); ok && g.Val && c.Common().StaticCallee() == leap && leap != nil && yearPrm != nil && yearPrm != month && c.Common().Args[0] == ssa.Value(yearPrm) {
 						gl = true
 					}
 				}
@@ -343,4 +362,204 @@ func checkC19(p *Program, r *Report) {
 	} else {
 		r.OK("R19.2", fmt.Sprintf("%s: decision tree over y%%{%s} equals the Gregorian rule in all %d residue classes", lkey, strings.Join(cs, ","), L))
 	}
+}
+
+
+// checkCalendarRoles (R19.3): day, month and year are not interchanged where the calendar helpers are called.
+// The month-length function fixes the roles of its own parameters (the one that indexes the table is the month,
+// the one handed to the leap predicate is the year); the roles of other helpers' parameters follow from how they
+// pass them on; in the date kernel the three running variables are told apart by the output each is written to.
+func checkCalendarRoles(p *Program, r *Report, dim, leap *ssa.Function) {
+	r.Rule("R19.3", "calendar roles: at every call of the month-length function, the leap predicate or a helper built on them, the argument in the month position is (a version of) the variable the kernel reports as the month, the one in the year position the variable reported as the year, the one in the day position the variable reported as the date")
+	roles := map[*ssa.Function][]string{}
+	if leap != nil && len(leap.Params) == 1 {
+		roles[leap] = []string{"year"}
+	}
+	dr := make([]string, len(dim.Params))
+	eachInstr(dim, func(_ *ssa.BasicBlock, _ int, ins ssa.Instruction) {
+		if ia, ok := ins.(*ssa.IndexAddr); ok {
+			if _, isG := ia.X.(*ssa.Global); isG {
+				for i, prm := range dim.Params {
+					if dependsOn(ia.Index, func(x ssa.Value) bool { return x == ssa.Value(prm) }, map[ssa.Value]bool{}) {
+						dr[i] = "month"
+					}
+				}
+			}
+		}
+	})
+	for _, c := range callsIn(dim) {
+		if c.Common().StaticCallee() == leap && leap != nil {
+			for i, prm := range dim.Params {
+				if origin1(c.Common().Args[0]) == ssa.Value(prm) {
+					dr[i] = "year"
+				}
+			}
+		}
+	}
+	roles[dim] = dr
+	// helpers: a parameter passed on (directly, or as the bound of a counting loop whose counter is passed on) at a
+	// position of known role takes that role; a parameter only added to the result of month lengths is the day
+	fns := p.PkgFuncs("models/functions")
+	for changed := true; changed; {
+		changed = false
+		for _, fn := range fns {
+			if roles[fn] != nil && fn == dim || fn == leap || fn.Blocks == nil {
+				continue
+			}
+			cur := roles[fn]
+			if cur == nil {
+				cur = make([]string, len(fn.Params))
+			}
+			set := func(i int, role string) {
+				if cur[i] == "" {
+					cur[i] = role
+					changed = true
+				}
+			}
+			uses := false
+			for _, c := range callsIn(fn) {
+				g := c.Common().StaticCallee()
+				gr := roles[g]
+				if gr == nil {
+					continue
+				}
+				uses = true
+				for j, a := range c.Common().Args {
+					if j >= len(gr) || gr[j] == "" {
+						continue
+					}
+					for i, prm := range fn.Params {
+						if origin1(a) == ssa.Value(prm) {
+							set(i, gr[j])
+						}
+						// counter of `for x := …; x < prm; x++`
+						if phi, ok := origin1(a).(*ssa.Phi); ok {
+							for _, l := range findLoops(fn) {
+								if l.Header == phi.Block() && loopInduction(l) == phi {
+									if iff, ok := l.Header.Instrs[len(l.Header.Instrs)-1].(*ssa.If); ok {
+										if bo, ok := iff.Cond.(*ssa.BinOp); ok && origin1(bo.Y) == ssa.Value(prm) {
+											set(i, gr[j])
+										}
+									}
+								}
+							}
+						}
+					}
+				}
+			}
+			if uses {
+				// an int parameter with no role yet that is added into the returned sum of month lengths: the day
+				if fn.Signature.Results().Len() == 1 {
+					for i, prm := range fn.Params {
+						if cur[i] != "" {
+							continue
+						}
+						for _, ret := range returnsOf(fn) {
+							if dependsOn(ret.Results[0], func(x ssa.Value) bool { return x == ssa.Value(prm) }, map[ssa.Value]bool{}) {
+								set(i, "day")
+							}
+						}
+					}
+				}
+				roles[fn] = cur
+			}
+		}
+	}
+	// the date kernel: variables told apart by the output they are written to
+	models, _ := p.Registry()
+	var m *Model
+	for _, x := range models {
+		if x.Kernel == nil {
+			continue
+		}
+		for _, c := range callsIn(x.Kernel) {
+			if roles[c.Common().StaticCallee()] != nil && relPkg(fnPkg(x.Kernel).Path()) == "models/functions" {
+				m = x
+			}
+		}
+	}
+	if m == nil {
+		r.Undecided("R19.3", "anchor:date-kernel", "-", "no catalogued kernel in models/functions calls the calendar helpers")
+		return
+	}
+	k := m.Kernel
+	key := m.RelPkg + "." + k.Name()
+	outRole := map[string]string{"date": "day", "day": "day", "month": "month", "year": "year"}
+	webs := map[string]map[ssa.Value]bool{}
+	base := len(m.Inputs) + len(m.States) + len(m.Params)
+	for _, c := range callsIn(k) {
+		nm := callName(c.Common())
+		if nm != "Set" && nm != "Set1" {
+			continue
+		}
+		recv := origin1(recvOf(c.Common()))
+		for oi, on := range m.Outputs {
+			role := outRole[strings.ToLower(on)]
+			if role == "" || base+oi >= len(k.Params) || recv != ssa.Value(k.Params[base+oi]) {
+				continue
+			}
+			v := callArgs(c.Common())[1]
+			for {
+				if cv, ok := v.(*ssa.Convert); ok {
+					v = cv.X
+					continue
+				}
+				break
+			}
+			w := phiWeb(v)
+			if webs[role] == nil {
+				webs[role] = map[ssa.Value]bool{}
+			}
+			for x := range w {
+				webs[role][x] = true
+			}
+		}
+	}
+	for _, role := range []string{"day", "month", "year"} {
+		if len(webs[role]) == 0 {
+			r.Undecided("R19.3", key+":web:"+role, p.Pos(k.Pos()), "the variable reported as the "+role+" was not found (no output named for it is written from an integer variable)")
+			return
+		}
+	}
+	webOf := func(v ssa.Value) string {
+		for {
+			for _, role := range []string{"day", "month", "year"} {
+				if webs[role][v] || webs[role][origin1(v)] {
+					return role
+				}
+			}
+			if cv, ok := v.(*ssa.Convert); ok {
+				v = cv.X
+				continue
+			}
+			return ""
+		}
+	}
+	n := 0
+	ord := map[string]int{}
+	for _, c := range callsIn(k) {
+		g := c.Common().StaticCallee()
+		gr := roles[g]
+		if gr == nil {
+			continue
+		}
+		ord[g.Name()]++
+		for j, a := range c.Common().Args {
+			if j >= len(gr) || gr[j] == "" {
+				continue
+			}
+			n++
+			okey := fmt.Sprintf("%s:%s#%d:%s", key, g.Name(), ord[g.Name()], gr[j])
+			got := webOf(a)
+			switch {
+			case got == gr[j]:
+				r.OK("R19.3", fmt.Sprintf("%s: %s call %d receives the %s variable in its %s position", key, g.Name(), ord[g.Name()], got, gr[j]))
+			case got == "":
+				r.Fail("R19.3", okey, p.Pos(c.Pos()), fmt.Sprintf("%s is called with something that is not the kernel's %s variable in its %s position", g.Name(), gr[j], gr[j]))
+			default:
+				r.Fail("R19.3", okey, p.Pos(c.Pos()), fmt.Sprintf("%s is called with the %s where the %s belongs: the calendar is evaluated for the wrong %s", g.Name(), got, gr[j], gr[j]))
+			}
+		}
+	}
+	r.Floor("R19.3", "calendar arguments with a role", n, 4)
 }
